@@ -226,11 +226,18 @@ def c_repr_objects(ctx, args):
     elif kind == 'map':
         m = gen.rmap(rng, ctx.model, n)
         lines = repr(M.CM(m)).split('\n')[1:]
+        labels = [c + str(j) for j in range(n) for c in 'XZ']
+        want = m
+        if n > 10:                      # long maps print their first ten and last ten rows around an ellipsis
+            if len(lines) != 21 or lines[10].strip() != '...':
+                return {'kind': 'oracle', 'where': be + ':repr(CliffordMap) of a long map', 'observed': [len(lines), lines[10:11]], 'expected': '10 rows, an ellipsis, 10 rows'}
+            lines = lines[:10] + lines[11:]
+            labels = labels[:10] + labels[-10:]
+            want = m[:10] + m[-10:]
         got = [parse(x.split('->')[1].rstrip(')')) for x in lines]
         heads = [x.split('->')[0].strip() for x in lines]
-        if heads != [c + str(j) for j in range(n) for c in 'XZ']:
-            return {'kind': 'oracle', 'where': be + ':repr(CliffordMap) row labels', 'observed': heads, 'expected': 'X0 Z0 X1 Z1 ...'}
-        want = m
+        if heads != labels:
+            return {'kind': 'oracle', 'where': be + ':repr(CliffordMap) row labels', 'observed': heads, 'expected': labels}
     else:
         t = gen.rtableau(rng, ctx.model, n)
         txt = repr(M.STATE(t))
@@ -309,5 +316,8 @@ def run(ctx):
         n = rng.randint(1, 5)
         rows = gen.rplist(rng, n, rng.randint(1, 4))
         do(ctx, 'list_forms', [rng.choice(['np', 'np', 'torch']), rows, ['strings', 'dicts', 'codes', 'objects', 'mixed'][it % 5], rng.randrange(10 ** 6)], nontrivial=('lf', it))
+    for n_ in (11, 12, 17):
+        for be_ in ('np', 'torch'):
+            do(ctx, 'repr_objects', [be_, 'map', n_, rng.randrange(10 ** 6)], nontrivial=('rol', be_, n_))
     for _ in range(int(90 * B)):
         do(ctx, 'repr_objects', [rng.choice(['np', 'np', 'torch']), rng.choice(['list', 'map', 'state']), rng.randint(1, 4), rng.randrange(10 ** 6)], nontrivial=('ro', ctx.res.evaluations))
